@@ -641,7 +641,7 @@ fn run_children(ctx: &mut Ctx, s: &Subject) {
         // is unsafe (it may be the same crash); instead restart after the culprit and re-run the lost
         // prefix in a fresh child bounded by the culprit.
         if culprit > skip {
-            rerun_range(ctx, s, skip, culprit);
+            rerun_range(ctx, s, skip, culprit, skip_hz);
         }
         skip = culprit + 1;
         restarts += 1;
@@ -659,7 +659,7 @@ fn run_children(ctx: &mut Ctx, s: &Subject) {
 }
 
 /// Re-run inputs [from, to) in a child that stops before `to` (their verdicts were lost with a dead child).
-fn rerun_range(ctx: &mut Ctx, s: &Subject, from: usize, to: usize) {
+fn rerun_range(ctx: &mut Ctx, s: &Subject, from: usize, to: usize, skip_hz: bool) {
     let exe = std::env::current_exe().expect("current_exe");
     let dir = std::env::var("VH_TMP").unwrap_or_else(|_| "/tmp".into());
     let report = format!("{}/vh_c06_{}_{}_r.json", dir, std::process::id(), s.index);
@@ -673,14 +673,43 @@ fn rerun_range(ctx: &mut Ctx, s: &Subject, from: usize, to: usize) {
         report,
         ctx.build
     );
-    let _ = std::process::Command::new("sh")
+    let spawned = std::process::Command::new("sh")
         .arg("-c")
         .arg(&cmd)
         .env("VH_C06_CHILD", &s.label)
         .env("VH_C06_SKIP", from.to_string())
         .env("VH_C06_STOP", to.to_string())
         .env("VH_C06_JOURNAL", "/dev/null")
-        .output();
+        .envs(if skip_hz { vec![("VH_C06_SKIP_HZ", "1")] } else { vec![] })
+        .stdout(std::process::Stdio::null())
+        .stderr(std::process::Stdio::null())
+        .spawn();
+    let Ok(mut child) = spawned else { return };
+    // these inputs all returned in the child that died later; the re-run only recovers their counters and is
+    // bounded by CPU time (their verdicts are not at stake)
+    let budget = if ctx.quick() { 120.0 } else { 300.0 };
+    let pid = child.id();
+    loop {
+        match child.try_wait() {
+            Ok(Some(_)) | Err(_) => break,
+            Ok(None) => {}
+        }
+        let used = std::fs::read_to_string(format!("/proc/{}/stat", pid))
+            .ok()
+            .and_then(|t| {
+                let i = t.rfind(')')?;
+                let f: Vec<&str> = t[i + 1..].split_whitespace().collect();
+                Some((f.get(11)?.parse::<f64>().ok()? + f.get(12)?.parse::<f64>().ok()?) / 100.0)
+            })
+            .unwrap_or(0.0);
+        if used > budget {
+            let _ = child.kill();
+            let _ = child.wait();
+            ctx.count("prefix_rerun_abandoned");
+            break;
+        }
+        std::thread::sleep(std::time::Duration::from_millis(50));
+    }
     if let Ok(text) = std::fs::read_to_string(&report) {
         if let Ok(j) = crate::util::parse_json(&text) {
             merge_child(ctx, &j);
